@@ -44,7 +44,7 @@ type Disagreement struct {
 type Judgement struct {
 	Property string `json:"property"`
 	Case     string `json:"case"`
-	Key      string `json:"key"`  // normalised (clause | site) used for known-findings matching
+	Key      string `json:"key"` // normalised (clause | site) used for known-findings matching
 	What     string `json:"what"`
 	Replay   string `json:"replay"`
 	// ModelDisagrees: on this case the implementation's observation differs from the model's
